@@ -396,7 +396,11 @@ func (p ParametersLiteral) GetIterationsParameters() (Iterations *IterationsPara
 			return nil, fmt.Errorf("field ReservedPrimeBitSize of IterationsParameters cannot be larger than 61")
 		}
 
-		return v, nil
+		// The parameters built from the literal are long-lived: they get their own copy.
+		return &IterationsParameters{
+			BootstrappingPrecision: append([]float64(nil), v.BootstrappingPrecision...),
+			ReservedPrimeBitSize:   v.ReservedPrimeBitSize,
+		}, nil
 	}
 }
 
